@@ -103,6 +103,17 @@ class C10:
     def make_plan(run_seed: int, tier: str) -> dict:
         st = Streams(run_seed)
         rc = st.get("config")
+        if rc.random() < 0.012 and "tsp" in E.only_filter(SCRIPTED_ENVS):
+            # wide action space (more than 128 actions, what large instances and the improvement policies'
+            # flattened move spaces have) with a flat distribution: the nucleus must still hold mass p of ALL actions
+            n = rc.choice([130, 150, 200])
+            cfg = {"env": "tsp", "n": n, "kw": {}, "gen": {"num_loc": n}}
+            rows = E.gen_rows(E.make_env(cfg), cfg, 1, st.torch_seed("instances"))
+            ep = {"decode": "sampling", "temperature": rc.choice([1.0, 5.0, 20.0]), "tanh": rc.choice([0, 10]),
+                  "top_k": 0, "top_p": rc.choice([0.5, 0.9, 0.99]), "k": 2, "torch_seed": rc.randrange(1 << 30),
+                  "shift": 0.0, "fault": False, "evaluate": False}
+            return {"cfg": cfg, "instances": [E.enc_row(r) for r in rows], "episodes": [ep], "wide": True,
+                    "scorer": {"kind": "scripted", "mode": rc.choice(["flat", "gaussian"]), "seed": rc.randrange(1 << 30)}}
         use_am = rc.random() < 0.25
         pool = E.only_filter(AM_ENVS if use_am else SCRIPTED_ENVS)
         name = pool[rc.randrange(len(pool))]
@@ -224,6 +235,17 @@ class _StepMonitor:
         mask = rec.mask.numpy()
         lp = rec.logprobs.numpy()
         knobs = rec.knobs()
+        if self.dk is not None:
+            # the distribution must be built with the knobs the caller configured, at every step of the rollout:
+            # a filter that is skipped or switched off on the way (for greedy, after a narrow step, ...) hands
+            # process_logits other arguments than the configured ones
+            for key in ("temperature", "top_p", "top_k", "tanh_clipping"):
+                if key in self.dk and float(knobs[key] or 0) != float(self.dk[key] or 0):
+                    run.violate(scope, "step_distribution", f"step {rec.n} ({self.phase}, {self.dt}): process_logits is "
+                                f"called with {key}={knobs[key]!r}, the caller configured {self.dk[key]!r}",
+                                constraint="knob_not_applied:" + key, step=rec.n, configured=self.dk, applied=knobs,
+                                decode=self.dt)
+                    raise StopRun()
         t = rec.n
         shifted = None
         if not knobs["tanh_clipping"]:
